@@ -19,6 +19,7 @@ func init() {
 func runC08(c *Ctx) {
 	w := c.W
 	checkMutateKeysNotAliased(c)
+	checkVersionTimesFresh(c)
 	// the logical times keys are dated with: clocks persisted, merged identities taken over by the cache
 	checkMemClock(c)
 	checkCacheMergeFold(c, "R2.6")
@@ -536,8 +537,10 @@ func checkMutateKeysNotAliased(c *Ctx) {
 	// which one goes to the callback?
 	var cb *ssa.Call
 	for _, cl := range Calls(fn) {
-		if _, isParam := cl.Instr.Common().Value.(*ssa.Parameter); isParam {
-			cb, _ = cl.Instr.(*ssa.Call)
+		if pp, isParam := cl.Instr.Common().Value.(*ssa.Parameter); isParam && !cl.Instr.Common().IsInvoke() {
+			if _, isSig := pp.Type().Underlying().(*types.Signature); isSig {
+				cb, _ = cl.Instr.(*ssa.Call)
+			}
 		}
 	}
 	if a == nil || b == nil || cb == nil || len(cb.Common().Args) != 1 {
@@ -603,4 +606,94 @@ func checkMutateKeysNotAliased(c *Ctx) {
 		}
 	}
 	c.Check(okNew, "R8.6", "Identity.Mutate:new-version-from-mutated", pos, "the new version is built from the mutated copy", "the version appended by Mutate is not built from the mutator the callback changed")
+}
+
+// R8.7: the logical times recorded in a new identity version are times no commit carries yet.
+func checkVersionTimesFresh(c *Ctx) {
+	w := c.W
+	c.Doc("R8.7", "a version added by Identity.Mutate gets logical times of its own: either newVersion records clock.Time() plus a positive constant (or the result of Increment), or Mutate increments every clock of AllClocks() — errors propagated — on every path to newVersion. A clock holds the last time handed out, which a commit may already carry; with the inclusive comparison of ValidKeysAtTime a version dated with that very time would take effect for that commit, which was signed with the previous keys")
+	mut := w.Method("entities/identity", "Identity", "Mutate")
+	nv := w.Func("entities/identity", "newVersion")
+	if mut == nil || nv == nil {
+		c.Undecided("R8.7", "anchor:Identity.Mutate/newVersion", "entities/identity", "not found")
+		return
+	}
+	c.seeFn(funcName(mut))
+	c.seeFn(funcName(nv))
+	// (A) newVersion itself
+	formA := false
+	for _, b := range nv.Blocks {
+		for _, ins := range b.Instrs {
+			mu, isMU := ins.(*ssa.MapUpdate)
+			if !isMU {
+				continue
+			}
+			c.Sites++
+			if bo, isBo := mu.Value.(*ssa.BinOp); isBo && bo.Op == token.ADD {
+				k, isK := constInt(bo.Y)
+				if cv, isCall := bo.X.(*ssa.Call); isCall && isK && k > 0 {
+					if n, _ := callName(cv.Common()); strings.HasSuffix(n, ".Time") {
+						formA = true
+					}
+				}
+			}
+			for _, o := range origins(mu.Value) {
+				if o.Kind == "call" && strings.HasSuffix(o.Name, ".Increment") {
+					formA = true
+				}
+			}
+		}
+	}
+	// (B) Mutate ticks every clock before newVersion
+	formB, why := false, "no clock is advanced before the version is dated"
+	var nvCall *ssa.Call
+	for _, cl := range CallsNamed(mut, "entities/identity.newVersion") {
+		nvCall, _ = cl.Instr.(*ssa.Call)
+	}
+	if nvCall != nil {
+		for _, cl := range Calls(mut) {
+			if !strings.HasSuffix(cl.Name, ".Increment") || !strings.HasPrefix(cl.Name, "repository.") {
+				continue
+			}
+			c.Sites++
+			inc, _ := cl.Instr.(*ssa.Call)
+			if inc == nil {
+				continue
+			}
+			// the name incremented is the key of a range over AllClocks()
+			args := cl.Args()
+			overAll := false
+			if len(args) == 1 {
+				if ex, isEx := args[0].(*ssa.Extract); isEx {
+					if nx, isNx := ex.Tuple.(*ssa.Next); isNx && ex.Index == 1 {
+						if r, isR := nx.Iter.(*ssa.Range); isR && hasOriginCallAny(r.X, ".AllClocks") {
+							overAll = true
+						}
+					}
+				}
+			}
+			if !overAll {
+				why = "the clocks advanced are not all the clocks of AllClocks()"
+				continue
+			}
+			hdr := enclosingLoopHeader(inc.Block())
+			if hdr == nil {
+				continue
+			}
+			// unconditional inside the loop, error propagated, loop exit dominates newVersion, loop not left early
+			only, _ := onlyControlledBy(inc.Block(), func(cc controlCond) bool {
+				// conditions outside the loop (e.g. "something changed") are fine
+				return !inLoop(cc.If.Block(), hdr)
+			})
+			exits, _ := earlyLoopExits(mut)
+			if only && errorPropagated(inc, nil) && hdr.Dominates(nvCall.Block()) && !inLoop(nvCall.Block(), hdr) && len(exits) == 0 {
+				formB = true
+			} else {
+				why = "the clocks are not advanced unconditionally, with errors propagated, before the version is dated"
+			}
+		}
+	}
+	c.Check(formA || formB, "R8.7", "Identity.Mutate:new-version-dated-after-every-commit", w.FnPos(mut),
+		map[bool]string{true: "newVersion dates the version after the clocks' current times", false: "Mutate advances every clock before dating the version"}[formA],
+		"a version added by Mutate is dated with the clocks' current times ("+why+"): a commit made just before (carrying that very time, signed with the previous key) is verified against the new keys and the repository cannot read back what it wrote — 'signature made by unknown entity'")
 }
